@@ -45,7 +45,7 @@ theorem bufioReadLine_wf (fuel : Nat) (w : W) (h : WF w) : WF (bufioReadLine fue
   · split
     · exact WF_buf this _
     · exact this
-  · split <;> exact this
+  · exact this
   · exact this
 
 theorem readLineAux_wf : ∀ (n fuel : Nat) (w : W) (acc : Bytes), WF w → WF (readLineAux n fuel w acc).1 := by
